@@ -37,7 +37,7 @@ func main() {
 	r.Rule("random seeds plus seeds SEARCHED so that the purpose' or coin' key of a default scope has a leading zero byte (the only case where btcsuite's legacy rule differs from BIP32); per seed a random interleaving of next-address, extend-to-index, lookup, derive-by-path, mark-used, lock/unlock (right and wrong passphrase), passphrase change, new account, custom scope, xpub-account import (with and without schema override), key/script import, cache invalidation and restart on a real waddrmgr.Manager; every address obtained by any route is judged against an independent BIP32 oracle (own HMAC-SHA512/secp256k1 CKDpriv/CKDpub, legacy rule for in-memory parents) and address encoders: address string, public key, derivation path, account, internal flag, type; when unlocked also the private key (equality + one sign/verify) and imported keys/scripts byte-for-byte; account public keys and issued-index counters after every account-level change; full sweeps (lookup + derive-by-path of every issued address, last addresses) after unlock, restart and at the end (unlocked, then again after restart). Non-trivial = history that issued addresses on >= 2 branches and was swept at least once; distinct = distinct (seed, op-kind sequence).")
 	r.Trusted("btcec secp256k1 arithmetic", "btcutil address constructors, txscript.ComputeTaprootKeyNoScript", "crypto/hmac, crypto/sha512")
 	r.Assume("invalid BIP32 children (p ~ 2^-127) are not produced", "for accounts >= 1 of a scope whose coin-type key has a leading zero byte either derivation rule is admitted, resolved once per account (DESIGN O-9); account 0 must follow the legacy rule")
-	dir, _ := os.MkdirTemp("", "c03")
+	dir := r.TempDir("c03")
 	defer os.RemoveAll(dir)
 	n := r.N(60, 1500)
 	nz := r.N(8, 120)
